@@ -267,6 +267,15 @@ def handle (j : Json) : Except String Verdict := do
         specSig := s!"C19/read/{k}-vs-{k0}/{pathCls r}-{pathCls r0}"
         specWhy := s!"readers disagree: {k} gives {(r.compress.take 200)}, {k0} gives {(r0.compress.take 200)}"
     tags := s!"read:{pathCls r0}:{present.length}" :: tags
+  -- (c') a field / array count mismatch is refused by every reader entry point of every family
+  match getOpt j "de_mismatch" with
+  | some (.obj kvs) =>
+    for (k, v) in kvs.toList do
+      if v != Json.str "err" && specSig == "" then
+        specSig := s!"C19/read-count-mismatch/{k}/{v.getStr?.toOption.getD "?"}"
+        specWhy := s!"{k}: a reader given a different number of fields and arrays must refuse (as from_marrow does), got {v.compress}"
+    if !kvs.toList.isEmpty then tags := "read-count-mismatch" :: tags
+  | _ => pure ()
   -- ---- correspondence: the adapter equations on the real crate
   for b in ["arrow", "arrow2"] do
     match getOpt via s!"ser_{b}" with
